@@ -489,10 +489,6 @@ def install_world():
     def add_component(self, entity, component):
         if not on(self):
             return _worig['add_component'](self, entity, component)
-        for me2 in set(W.ents.values()):
-            e2 = _real(me2)
-            if e2 != entity and any(c is component for c in self.get_components(e2)):
-                W.bad('one component instance attached to two entities (outside the specification\'s domain)')
         return _wcall('AddComponent', W.ent(entity), W.comp(component), '-', self, lambda: _worig['add_component'](self, entity, component))
 
     def remove_component(self, entity, component_type):
